@@ -250,6 +250,10 @@ structure HttpSt where
   events : List HEvent := []                      -- newest first
   resps : List (Nat × String) := []               -- (jar, rendered response), newest first
   used : List (Nat × String) := []                -- (jar, account name it used), for `alone`
+  -- memo tables of the C16 monitors (per case): parsed code, specification answers, model results
+  condC : List (String × Except Err (List String × List Fm)) := []
+  specC : List (String × String) := []
+  resC : List (String × Option SRes) := []
 
 def HttpSt.env (h : HttpSt) : Env String SHash SAdf SRes := mkEnv h.detail h.orc
 
@@ -351,6 +355,30 @@ def parseSpec (code : String) (obs : Option String) (adf : Option SAdf) : String
 def writeText (detail : Bool) : Write SAdf SRes → String
   | .parsed _ po => oweText detail po
   | .solved _ r => oweText detail r
+
+/-- the four stable strategies share one specification answer -/
+def specClass (key : String) : String :=
+  if key == "parse_only" || key == "ground" || key == "complete" then key else "stable"
+
+def HttpSt.cond (h : HttpSt) (cw code : String) : Except Err (List String × List Fm) × HttpSt :=
+  match lookupS cw h.condC with
+  | some c => (c, h)
+  | none => let c := conditions code; (c, { h with condC := (cw, c) :: h.condC })
+
+def HttpSt.spec (h : HttpSt) (cw code key : String) : String × HttpSt :=
+  let k := cw ++ "|" ++ specClass key
+  match lookupS k h.specC with
+  | some r => (r, h)
+  | none =>
+    let (c, h1) := h.cond cw code
+    let r := specAnswerC c key
+    (r, { h1 with specC := (k, r) :: h1.specC })
+
+def HttpSt.res (h : HttpSt) (tw : String) (a : SAdf) (key : String) : Option SRes × HttpSt :=
+  let k := tw ++ "|" ++ key
+  match lookupS k h.resC with
+  | some r => (r, h)
+  | none => let r := resultOf a key; (r, { h with resC := (k, r) :: h.resC })
 
 /-- returns the lines to print and the new state, or `none` if the request is not of this family -/
 def httpStep (h : HttpSt) (l : String) (ws : List String) : Option (List String × HttpSt) :=
@@ -458,19 +486,23 @@ def httpStep (h : HttpSt) (l : String) (ws : List String) : Option (List String 
   | ["result", key, cw, tw] =>
     match unhex cw, parseAdfText "" tw with
     | some code, some a =>
-      match resultOf a key with
+      let (res, h1) := h.res tw a key
+      match res with
       | some r =>
         let eq := if h.mode == "d9b" then [] else ["= " ++ dashIfEmpty (joinWith ";" (sortStrs (r.map (fun x => showAc x.ac))))]
-        some ([l] ++ eq ++ ["~ " ++ specAnswer code key], h)
-      | none => some ([l, "= bad-request", "~ bad-request"], h)
+        let (sp, h2) := h1.spec cw code key
+        some ([l] ++ eq ++ ["~ " ++ sp], h2)
+      | none => some ([l, "= bad-request", "~ bad-request"], h1)
     | _, _ => some ([l, "= bad-request", "~ bad-request"], h)
   | ["graphcheck", key, cw, tw, acw, gw] =>
     match unhex cw, parseAdfText "" tw, parseNatList acw ",", parseGraphText gw with
     | some code, some a, some ac, some g =>
-      let mine := match (resultOf a key).bind (fun r => r.find? (fun x => x.ac == ac)) with
+      let (res, h1) := h.res tw a key
+      let mine := match res.bind (fun r => r.find? (fun x => x.ac == ac)) with
         | some x => fnv64 (graphText x.graph)
         | none => "no-such-model"
-      some ([l] ++ (if h.mode == "d9b" then [] else ["= " ++ mine]) ++ ["~ " ++ graphOK code a ac g], h)
+      let (c, h2) := h1.cond cw code
+      some ([l] ++ (if h.mode == "d9b" then [] else ["= " ++ mine]) ++ ["~ " ++ graphOKC c a ac g], h2)
     | _, _, _, _ => some ([l, "= bad-request", "~ bad-request"], h)
   | _ => none
 
